@@ -58,6 +58,15 @@ def edits(blob, tier, stride=1):
     for o in range(0, n, stride):
         yield 'x01@%d' % o, blob[:o] + bytes([blob[o] ^ 1]) + blob[o + 1:]
         yield 'x80@%d' % o, blob[:o] + bytes([blob[o] ^ 0x80]) + blob[o + 1:]
+        if tier == 'thorough':
+            # every single-bit edit, and the byte exchanged with its neighbour
+            for bit in (1, 2, 3, 4, 5, 6):
+                yield 'x%02x@%d' % (1 << bit, o), blob[:o] + bytes([blob[o] ^ (1 << bit)]) + blob[o + 1:]
+            if o + 1 < n and blob[o] != blob[o + 1]:
+                yield 'swap@%d' % o, blob[:o] + blob[o + 1:o + 2] + blob[o:o + 1] + blob[o + 2:]
+    if tier == 'thorough':
+        for k in range(1, n):
+            yield 'prefix@%d' % k, blob[:k]
     for o in range(0, n, max(stride, 1 if tier == 'thorough' else 3)):
         yield 'del@%d' % o, blob[:o] + blob[o + 1:]
         yield 'ins@%d' % o, blob[:o] + b'\0' + blob[o:]
